@@ -266,7 +266,7 @@ Section Handle.
   Definition post_key (it : item) (s : vxstate) : outcome :=
     post (EKey (if paste s then mark_paste (dec it) else dec it)) s.
 
-  (* for _, ps := range seq.Parameters { switch ps[0] { case 4: post(capabilitySixel{}) } } *)
+  (* for _, ps := range seq.Params { switch ps[0] { case 4: post(capabilitySixel{}) } } *)
   Fixpoint da1_loop (ps : list (list Z)) (s : vxstate) : outcome :=
     match ps with
     | [] => ret s
